@@ -45,6 +45,16 @@ Theorem C12_script_inert :
 Proof. exact script_inert. Qed.
 Print Assumptions C12_script_inert.
 
+(** ... and when build_response (integrations/utils) sends a chunk as [<script>chunk</script>],
+    the script element ends exactly at that end tag: the browser takes the chunk, the whole
+    chunk and nothing else, as the script's text *)
+Theorem C12_script_element_text :
+  forall esc isl script c,
+  In (entry_chunk c) (log (session esc isl script)) ->
+  script_text (c ++ k_script_close) = Some c /\ has_comment_open c = false.
+Proof. exact script_element_text. Qed.
+Print Assumptions C12_script_element_text.
+
 (** consume_buffers (the exit used by custom hydration contexts): for every order in which the
     futures complete, each registered id comes out paired with the data registered under it *)
 Theorem C12_consume_pairs :
